@@ -101,21 +101,44 @@ def harnesses(ctx):
                           must_have=['postcondition', 'findNode.0 invariant base', 'findNode.0 invariant step', 'G\\.'],
                           clause='findNode %s: returns a node of the same class that was a root at some instant; every own step is a path-halving step keeping INV (no cycles)' % what,
                           funcs=[D + 'findNode', D + 'get']))
-        hs.append(Harness('uf.updateRoot' + tag, 'harness_updateRoot', cpp=cpp, c=c, defines=defs, enforce='h_updateRoot', unwind=N + 2, bounded=bnd,
+        hs.append(Harness('uf.updateRoot' + tag, 'harness_updateRoot', cpp=cpp, c=c, defines=defs, enforce='h_updateRoot', unwind=max(N + 2, 12), bounded=bnd,
                           must_have=['postcondition'], clause='updateRoot %s: succeeds only by one CAS on a node that is a root with the expected rank' % what, funcs=[D + 'updateRoot']))
-        hs.append(Harness('uf.unionNodes' + tag, 'harness_unionNodes', cpp=cpp, c=c, defines=defs, enforce='h_unionNodes', replace=['h_findNode'], unwind=N + 2, bounded=bnd,
+        hs.append(Harness('uf.unionNodes' + tag, 'harness_unionNodes', cpp=cpp, c=c, defines=defs, enforce='h_unionNodes', replace=['h_findNode'], unwind=max(N + 2, 12), bounded=bnd,
                           must_have=['postcondition', 'unionNodes.0 invariant base', 'unionNodes.0 invariant step', 'G\\.'],
                           clause='unionNodes %s: on return x0 and y0 are in the same class; every merge it performs joins the classes of its own arguments; ranks/links keep INV' % what,
                           funcs=[D + 'unionNodes']))
-        hs.append(Harness('uf.sameSet' + tag, 'harness_sameSet', cpp=cpp, c=c, defines=defs, enforce='h_sameSet', replace=['h_findNode'], unwind=N + 2, bounded=bnd,
+        hs.append(Harness('uf.sameSet' + tag, 'harness_sameSet', cpp=cpp, c=c, defines=defs, enforce='h_sameSet', replace=['h_findNode'], unwind=max(N + 2, 12), bounded=bnd,
                           must_have=['postcondition', 'sameSet.0 invariant base', 'sameSet.0 invariant step'],
                           clause='sameSet %s: the answer is correct at some instant during the call' % what, funcs=[D + 'sameSet']))
-    hs.append(Harness('uf.makeNode', 'harness_makeNode', cpp=cpp, c=c, defines=['VX_N=%d' % N, 'VX_SEQ'], enforce='h_makeNode', unwind=N + 2, bounded=bnd,
+    hs.append(Harness('uf.makeNode', 'harness_makeNode', cpp=cpp, c=c, defines=['VX_N=%d' % N, 'VX_SEQ'], enforce='h_makeNode', unwind=max(N + 2, 12), bounded=bnd,
                       must_have=['postcondition'], clause='makeNode: appends a self-rooted rank-0 node in its own class', funcs=[D + 'makeNode']))
     for lem in ('evolve_reflexive', 'evolve_transitive', 'guarantee_within_rely', 'inv_acyclic'):
-        hs.append(Harness('uf.lemma.' + lem, 'lemma_' + lem, c=c, defines=['VX_N=%d' % N], unwind=N + 2, bounded=bnd, must_have=['lemma'],
+        hs.append(Harness('uf.lemma.' + lem, 'lemma_' + lem, c=c, defines=['VX_N=%d' % N], unwind=max(N + 2, 12), bounded=bnd, must_have=['lemma'],
                           clause='rely/guarantee side condition / consequence of INV'))
     return hs
+
+
+def replay(ctx, h, r, ins, tr):
+    """Interleaving counterexamples are replayed by a bounded systematic exploration of two-thread histories on the real
+    method bodies (this run's extracted text compiled natively against the yield-instrumented atomic stub)."""
+    import subprocess
+    from vxlib.cbmc import STUBS
+    exe = os.path.join(ctx.work, 'replay_uf_explore')
+    import shutil
+    nat = os.path.join(ctx.work, 'natstub')        # only the instrumented <atomic>; every other header is the real libstdc++
+    os.makedirs(nat, exist_ok=True)
+    for f in ('atomic', 'vx_rt.h'):
+        shutil.copy(os.path.join(STUBS, f), os.path.join(nat, f))
+    p = subprocess.run(['g++', '-std=c++17', '-O1', '-I', nat, '-I', ctx.work, '-I', HERE, os.path.join(HERE, '..', '..', 'replay', 'unionfind', 'explore.cpp'), '-o', exe],
+                       stdout=subprocess.PIPE, stderr=subprocess.STDOUT)
+    if p.returncode != 0:
+        return None, 'native replay build failed: ' + p.stdout.decode()[-500:]
+    try:
+        q = subprocess.run([exe], stdout=subprocess.PIPE, stderr=subprocess.STDOUT, timeout=600)
+    except subprocess.TimeoutExpired:
+        return None, 'native exploration timed out'
+    out = q.stdout.decode().strip()
+    return q.returncode == 1, 'exploration of two-thread histories on the real DisjointSet bodies: ' + out[-600:]
 
 
 ASSUMPTIONS = [
